@@ -19,6 +19,8 @@ EINSUM_OPS = {"id", "sum", "multiply", "dot"}
 
 
 def backends_for(case):
+    if "dot-batch" in case["tags"]:
+        return ["numpy", "numpy.numpylike", "numpy.einsum"]
     if "exhaustive" in case["tags"]:
         return ["numpy"]
     bs = ["numpy", "numpy.numpylike"]
@@ -101,6 +103,8 @@ def main():
             cs = cs + family.exhaustive("reduce-brackets")
         if fam == "argfind":
             cs = cs + family.exhaustive("argfind-brackets")
+        if fam == "dot":
+            cs = cs + family.exhaustive("dot-batch")
         cases_by_family[fam] = cs
         for c in cs:
             for b in backends_for(c):
